@@ -172,4 +172,187 @@ theorem tie_add_dynamic_obstacle_to_lanelets (E : Env) (s : St) (o : Id) (hk : E
           rw [foldlM_regItems E o _ (fun s kv => foldlM_regDyn E o kv.1 _ (by reg_tac E, o, kv.1) kv.2 s)]
           cases regItems E o d r <;> simp [map_ok, map_err, Except.map]
 
+/-! ### dynamic obstacles: removal -/
+
+theorem foldlM_discardDyn (E : Env) (o : Id) (t : T) (f : St → Id → Res St)
+    (hf : ∀ s l, f s l = .ok { s with dreg := if l ∈ E.lanelets then dDel s.dreg l t o else s.dreg }) :
+    ∀ (ids : List Id) (s : St), ids.foldlM f s = .ok { s with dreg := discardDyn E o t ids s.dreg } := by
+  intro ids
+  induction ids with
+  | nil => intro s; simp [discardDyn, pure, Except.pure]
+  | cons a as ih =>
+    intro s
+    simp only [List.foldlM_cons, hf, discardDyn, bind, Except.bind]
+    rw [ih]
+
+theorem foldlM_discardItems (E : Env) (o : Id) (g : St → T × List Id → Res St)
+    (hg : ∀ s kv, g s kv = .ok { s with dreg := discardDyn E o kv.1 kv.2 s.dreg }) :
+    ∀ (d : Dict) (s : St), d.foldlM g s = .ok { s with dreg := discardItems E o d s.dreg } := by
+  intro d
+  induction d with
+  | nil => intro s; simp [discardItems, pure, Except.pure]
+  | cons a as ih =>
+    intro s
+    obtain ⟨t, ids⟩ := a
+    simp only [List.foldlM_cons, hg, discardItems, bind, Except.bind]
+    rw [ih]
+
+theorem discard_some {s : St} {l : Id} {t : T} {v : List Id} (o : Id) (h : s.dreg l t = some v) :
+    ddictDiscardAt s l t o = .ok { s with dreg := dDel s.dreg l t o } := by
+  simp only [ddictDiscardAt, h, ddictSet]
+  congr 2
+  funext l' t'
+  by_cases hc : l' = l ∧ t' = t
+  · obtain ⟨rfl, rfl⟩ := hc; simp [dDel, h]
+  · simp [dDel, hc]
+
+theorem dDel_none {r : DReg} {l : Id} {t : T} (o : Id) (h : r l t = none) : dDel r l t o = r := by
+  funext l' t'
+  by_cases hc : l' = l ∧ t' = t
+  · obtain ⟨rfl, rfl⟩ := hc; simp [dDel, h]
+  · simp [dDel, hc]
+
+/-- proves `body s l = .ok { s with dreg := if l ∈ E.lanelets then dDel s.dreg l t o else s.dreg }` for the guarded discard step
+    `lanelet = find_lanelet_by_id(l); if lanelet is not None and t in lanelet.dynamic_obstacles_on_lanelet: …[t].discard(o)` -/
+macro "discard_tac " E:term ", " o:term ", " t:term : tactic => `(tactic|
+  (intro s l
+   by_cases h : l ∈ ($E : Env).lanelets
+   · cases hd : s.dreg l $t <;>
+       first
+       | simp [findLanelet, deref, h, hd, ddictHas, bind, Except.bind, pure, Except.pure, discard_some $o hd]
+       | simp [findLanelet, deref, h, hd, ddictHas, bind, Except.bind, pure, Except.pure, dDel_none $o hd]
+   · simp [findLanelet, deref, h, bind, Except.bind, pure, Except.pure]))
+
+/-! the centre part of `_remove_dynamic_obstacle_from_lanelets` merges the initial centre set into the entry of the initial time
+    step (`center_assignment[t_init] = set(center_assignment.get(t_init, ())) | set(initial_center_lanelet_ids or ())`), the model
+    appends it as an entry of its own: the discards commute and are idempotent, so the registries are EQUAL -/
+
+/-- one guarded discard -/
+def dstep (E : Env) (o : Id) (t : T) (l : Id) (r : DReg) : DReg := if l ∈ E.lanelets then dDel r l t o else r
+
+theorem dDel_comm (r : DReg) (l l' : Id) (t t' : T) (o : Id) : dDel (dDel r l t o) l' t' o = dDel (dDel r l' t' o) l t o := by
+  funext a b
+  simp only [dDel]
+  by_cases h1 : a = l ∧ b = t
+  · by_cases h2 : a = l' ∧ b = t'
+    · simp only [if_pos h1, if_pos h2]
+    · simp only [if_pos h1, if_neg h2]
+  · by_cases h2 : a = l' ∧ b = t'
+    · simp only [if_neg h1, if_pos h2]
+    · simp only [if_neg h1, if_neg h2]
+
+theorem dstep_comm (E : Env) (o : Id) (r : DReg) (l l' : Id) (t t' : T) :
+    dstep E o t' l' (dstep E o t l r) = dstep E o t l (dstep E o t' l' r) := by
+  unfold dstep
+  by_cases h1 : l ∈ E.lanelets <;> by_cases h2 : l' ∈ E.lanelets <;> simp [h1, h2, dDel_comm]
+
+theorem discardDyn_cons (E : Env) (o : Id) (t : T) (l : Id) (ls : List Id) (r : DReg) :
+    discardDyn E o t (l :: ls) r = discardDyn E o t ls (dstep E o t l r) := rfl
+
+theorem discardDyn_dstep (E : Env) (o : Id) (t t' : T) (l' : Id) : ∀ (ids : List Id) (r : DReg),
+    discardDyn E o t ids (dstep E o t' l' r) = dstep E o t' l' (discardDyn E o t ids r) := by
+  intro ids
+  induction ids with
+  | nil => intro r; rfl
+  | cons a as ih => intro r; rw [discardDyn_cons, discardDyn_cons, dstep_comm, ih]
+
+theorem discardDyn_comm (E : Env) (o : Id) (t t' : T) (ids' : List Id) : ∀ (ids : List Id) (r : DReg),
+    discardDyn E o t ids (discardDyn E o t' ids' r) = discardDyn E o t' ids' (discardDyn E o t ids r) := by
+  intro ids
+  induction ids with
+  | nil => intro r; rfl
+  | cons a as ih => intro r; rw [discardDyn_cons, discardDyn_cons, ← discardDyn_dstep, ih]
+
+theorem discardDyn_append (E : Env) (o : Id) (t : T) : ∀ (a b : List Id) (r : DReg),
+    discardDyn E o t (a ++ b) r = discardDyn E o t b (discardDyn E o t a r) := by
+  intro a
+  induction a with
+  | nil => intro b r; rfl
+  | cons x xs ih => intro b r; simp only [List.cons_append, discardDyn_cons, ih]
+
+theorem discardItems_discardDyn (E : Env) (o : Id) (t : T) (ids : List Id) : ∀ (d : Dict) (r : DReg),
+    discardItems E o d (discardDyn E o t ids r) = discardDyn E o t ids (discardItems E o d r) := by
+  intro d
+  induction d with
+  | nil => intro r; rfl
+  | cons a as ih => intro r; obtain ⟨k, w⟩ := a; simp only [discardItems]; rw [discardDyn_comm, ih]
+
+theorem discardItems_append_single (E : Env) (o : Id) (t : T) (ids : List Id) : ∀ (d : Dict) (r : DReg),
+    discardItems E o (d ++ [(t, ids)]) r = discardDyn E o t ids (discardItems E o d r) := by
+  intro d
+  induction d with
+  | nil => intro r; rfl
+  | cons a as ih => intro r; obtain ⟨k, w⟩ := a; simp only [List.cons_append, discardItems, ih]
+
+theorem discardItems_merge (E : Env) (o : Id) (t0 : T) (ic : List Id) : ∀ (d : Dict) (r : DReg),
+    discardItems E o (dictSet d t0 (dictGetD d t0 ++ ic)) r = discardItems E o (d ++ [(t0, ic)]) r := by
+  intro d
+  induction d with
+  | nil => intro r; simp [dictSet, dictGetD, dictGet]
+  | cons a as ih =>
+    intro r
+    obtain ⟨k, w⟩ := a
+    by_cases hk : k = t0
+    · subst hk
+      simp only [dictSet, dictGetD, dictGet, if_true, Option.getD_some, List.cons_append, discardItems]
+      rw [discardItems_append_single, discardDyn_append, discardItems_discardDyn]
+    · have : dictGetD ((k, w) :: as) t0 = dictGetD as t0 := by simp [dictGetD, dictGet, hk]
+      simp only [this, dictSet, hk, if_false, List.cons_append, discardItems]
+      exact ih _
+
+/-- rewrites one loop `for t, ids in d.items(): for l in ids: <guarded discard>` (not under a binder) into `discardItems` -/
+macro "rw_discard_items " E:term ", " o:term : tactic => `(tactic|
+  rw [foldlM_discardItems $E $o _ (fun s kv => foldlM_discardDyn $E $o kv.1 _ (by discard_tac $E, $o, kv.1) kv.2 s)])
+
+/-- `_remove_dynamic_obstacle_from_lanelets`: the dynamic branch of the model's `remove` (registries only) -/
+theorem tie_remove_dynamic_obstacle_from_lanelets (E : Env) (s : St) (o : Id) :
+    Gen.Scenario_remove_dynamic_obstacle_from_lanelets E s o =
+      .ok (if E.kind o = Kind.dynSet ∨ E.lanelets = [] then s
+           else { s with dreg := unregCenter E o (s.fwd o) (unregShape E o (s.fwd o) s.dreg) }) := by
+  unfold Gen.Scenario_remove_dynamic_obstacle_from_lanelets
+  by_cases hg : E.kind o = Kind.dynSet ∨ E.lanelets = []
+  · rcases hg with hg | hg <;> simp [hg, pure, Except.pure]
+  · have h1 : E.kind o ≠ Kind.dynSet := fun h => hg (Or.inl h)
+    have h2 : E.lanelets ≠ [] := fun h => hg (Or.inr h)
+    simp only [h1, h2, hg, decide_false, Bool.false_or, Int.natCast_eq_zero, List.length_eq_zero_iff, Bool.false_eq_true, if_false]
+    cases hi : (s.fwd o).initShape with
+    | none =>
+      simp only [Option.isNone_none, Bool.not_true, Bool.false_eq_true, if_false, bind, Except.bind, pure, Except.pure]
+      cases hkind : E.kind o <;> simp [predIsNone, predShape, predCenterOrNone, hkind, bind, Except.bind, pure, Except.pure] at h1 ⊢
+      · rw_discard_items E, o
+        simp [discardItems_merge, unregCenter, unregShape, hkind, hi, discardDyn]
+      · cases hp : (s.fwd o).predShape with
+        | none =>
+          simp only [hp, Option.isSome_none, Bool.false_eq_true, if_false]
+          rw_discard_items E, o
+          simp [discardItems_merge, unregCenter, unregShape, hkind, hi, hp, discardDyn, discardItems]
+        | some d =>
+          simp only [hp, Option.isSome_some, if_true, items]
+          rw_discard_items E, o
+          simp only []
+          rw_discard_items E, o
+          simp [discardItems_merge, unregCenter, unregShape, hkind, hi, hp, discardDyn, discardItems]
+      · rw_discard_items E, o
+        simp [discardItems_merge, unregCenter, unregShape, hkind, hi, discardDyn]
+    | some ids =>
+      simp only [Option.isNone_some, Bool.not_false, if_true, iter, bind, Except.bind, pure, Except.pure]
+      rw [foldlM_discardDyn E o (E.t0 o) _ (by discard_tac E, o, (E.t0 o))]
+      simp only []
+      cases hkind : E.kind o <;> simp [predIsNone, predShape, predCenterOrNone, hkind, bind, Except.bind, pure, Except.pure] at h1 ⊢
+      · rw_discard_items E, o
+        simp [discardItems_merge, unregCenter, unregShape, hkind, hi, discardDyn]
+      · cases hp : (s.fwd o).predShape with
+        | none =>
+          simp only [hp, Option.isSome_none, Bool.false_eq_true, if_false]
+          rw_discard_items E, o
+          simp [discardItems_merge, unregCenter, unregShape, hkind, hi, hp, discardDyn, discardItems]
+        | some d =>
+          simp only [hp, Option.isSome_some, if_true, items]
+          rw_discard_items E, o
+          simp only []
+          rw_discard_items E, o
+          simp [discardItems_merge, unregCenter, unregShape, hkind, hi, hp, discardDyn, discardItems]
+      · rw_discard_items E, o
+        simp [discardItems_merge, unregCenter, unregShape, hkind, hi, discardDyn]
+
 end CR.Assign
